@@ -154,7 +154,8 @@ def fn(ck, a):
         ck.cov["evaluations"] = ncmds
         ck.cov["schedule_choice_points"] = nchoices
         ck.cov["schedule_deviations_from_fifo"] = ndev
-        ck.cov["rule"] = ("cases = commands issued concurrently (windows of 2-3 commands from 3 sessions on 2 mailboxes) "
+        ck.cov["rule"] = ("cases = commands issued concurrently (windows of 2-4 commands from 3-4 IMAP sessions and, in every fifth run, a POP3 "
+                          "session that QUITs; start offsets, slow clients and a slow destination in the directed windows; 2 mailboxes) "
                           "on the real server under seeded schedules that permute ready callbacks; every window is "
                           "explained by TLC as a sequential order of spec/MailStore.tla actions (COPY/MOVE optionally in "
                           "their documented steps) or reported; distinct non-trivial = distinct (command, uid-form, "
